@@ -79,3 +79,35 @@ From AM Require Import Gen.EntryMetrics Model.EntryMetricsIR Proofs.EntryMetrics
 Theorem C17_entry_from_source : forall pid msg, entry_args gen_entry (pid, msg) = Some (pid, msg).
 Proof. exact entry_from_source. Qed.
 Print Assumptions C17_entry_from_source.
+
+Theorem C17_entry_context_is_callers : en_lookup "ctx" (en_config gen_entry) = Some FromCtxParam.
+Proof. exact entry_context_is_callers. Qed.
+Print Assumptions C17_entry_context_is_callers.
+
+(* the body of ProcessSshdLogEntry is ONE call of ProcessEntry on a fresh per-line configuration whose result is
+   returned: no guard / early return, loop, defer, derived context or write to the long-lived processor (the generator
+   has no form for them: the generated file would not type-check) *)
+Theorem C17_entry_single_call :
+  en_callee gen_entry = "ProcessEntry" /\ en_result_returned gen_entry = true /\
+  map fst (en_config gen_entry) = ["ctx"; "logins"; "logEntry"; "nodeName"; "machineID"; "when"; "pid"; "eventW"; "metrics"] /\
+  en_lookup "when" (en_config gen_entry) = Some FromTimeNow.
+Proof. exact entry_single_call. Qed.
+Print Assumptions C17_entry_single_call.
+
+(* ---------- the message the processor is given is the syslog line's own text ----------
+   Gen/PureFuncs.v is REGENERATED on every run by translating the Go bodies of SyslogIngester.ParseSyslogMessage and of
+   the argument preparation in SyslogIngester.Process into Gallina over executable models of the strings package
+   (Lib/GoStrings.v; None = the operation panics).  The hand-written [parse] / [process_line] of Model/Syslog.v ARE those
+   translations, for every line: the record is split at the first blank run after the PID token and nothing in the
+   message is collapsed, decoded, unescaped or otherwise rewritten on its way to the processor (a call of any function
+   the translator does not know makes the generated file ill-typed and re-opens these obligations). *)
+From AM Require Import Lib.GoStrings Gen.PureFuncs Proofs.PureFuncsTie Model.Syslog.
+Theorem C17_parse_from_source : forall e,
+  option_map entry_pair (gen_parse_syslog_message e) = Some (Syslog.parse e).
+Proof. exact parse_syslog_from_source_pair. Qed.
+Print Assumptions C17_parse_from_source.
+
+Theorem C17_process_line_from_source : forall line,
+  option_map entry_pair (gen_process_line line) = Some (process_line line).
+Proof. exact process_line_from_source. Qed.
+Print Assumptions C17_process_line_from_source.
